@@ -26,6 +26,7 @@ REQUIRED_THEOREMS = [
     "Acn.C07.sim_no_invalid_rate_partial", "Acn.C07.accepts_of_pilot_accepted",
     "Acn.C07.ev_charge_le_requested", "Acn.C07.sim_delivered_le_requested_partial",
     "Acn.C07.schedule_length", "Acn.C07.sim_period_composition",
+    "Acn.C07.sim_consequences_of_schedSafe", "Acn.C07.sortedSched_no_invalidRate", "Acn.C07.zero_sched_safe",
 ]
 BUDGET = {"quick": 900, "thorough": 6000, "search": 1200}
 TRUSTED = [
